@@ -91,7 +91,9 @@ def call(it, obj, method, *args, **kwargs):
     try:
         return it.call_function(A.FuncRef(f[0], f[2], self_obj=obj, cls=f[1]), list(args), dict(kwargs), f[2])
     except A.Raised as e:
-        raise A.Unsupported('model run of %s raised %s' % (method, e.what))
+        u_ = A.Unsupported('model run of %s raised %s' % (method, e.what))
+        u_.raised = e           # the interpreted code's own exception (with its evaluated arguments, when known)
+        raise u_
 
 
 def call_function(it, rel, name, *args, **kwargs):
